@@ -28,7 +28,7 @@ SUBJECTS = ("console", "device", "serial", "drvdevice", "drvserial")
 OFF = 0x30
 MAXB = 0x7e - OFF
 PATH = "/dev/ttyFAKE0"
-INVARIANTS = ("RxPrefix", "RxbsSuffix", "OneHandle", "BoundedRead", "WholeLines", "NoEmptyResidue")
+INVARIANTS = ("RxPrefix", "RxbsSuffix", "OneHandle", "BoundedRead", "WholeLines")
 ACTIONS = {
     "console": ["Type", "Open", "Close", "GetLine", "Put"],
     "device": ["Type", "Open", "Close", "Reopen", "Receive", "Send"],
@@ -71,7 +71,7 @@ def cfg_text(subjects, consts, lag=False, props=True, spec="Spec"):
                                            ", ".join('"%s"' % m for m in consts.get("Modes", ["both"])), "TRUE" if lag else "FALSE"))
     s += "".join("INVARIANT %s\n" % i for i in INVARIANTS)
     if props:
-        s += "PROPERTY TxConserved\nPROPERTY ClosedIsQuiet\n"
+        s += "PROPERTY TxConserved\nPROPERTY ClosedIsQuiet\nPROPERTY NoEmptyResidue\n"
     return s
 
 
@@ -567,9 +567,14 @@ def _tx_script(rng, queue, errors):
     for n in queue:
         r = _write_answer(rng, n, errors)
         s.append(r)
-        if r["k"] != "full":
-            break
+        if r["k"] == "error" or (n and r["k"] != "full"):
+            break       # (an empty message leaves the queue whatever its zero length write is answered, short of an error)
     return s
+
+
+def _message(rng):
+    """1..6 bytes, now and then none at all"""
+    return tuple(rng.randint(1, MAXB) for _ in range(0 if rng.random() < 0.08 else rng.randint(1, 6)))
 
 
 class Escaped(Exception):
@@ -648,7 +653,7 @@ def _fake_trace(rng, ad, subject, bs, nsteps, evs, cur):
                 name = "Receive"
                 a["k"] = rk
         elif q < 0.80:
-            m = tuple(rng.randint(1, MAXB) for _ in range(rng.randint(1, 6)))
+            m = _message(rng)
             a["m"] = m
             if driver:
                 name = "Queue"
@@ -719,7 +724,7 @@ def _pty_trace(rng, ad, subject, bs, nsteps, evs, cur):
             elif q < 0.7:
                 do("Close", a)
             elif driver and q < 0.8:
-                a["m"] = tuple(rng.randint(1, MAXB) for _ in range(rng.randint(1, 6)))
+                a["m"] = _message(rng)
                 do("Queue", a)
             elif driver and q < 0.9:
                 do(rng.choice(["ServiceRx", "ServiceRxOnce", "ServiceTx", "ServiceTxOnce"]), a)
@@ -750,7 +755,7 @@ def _pty_trace(rng, ad, subject, bs, nsteps, evs, cur):
             else:
                 do("Receive", a)
         elif q < 0.85:
-            a["m"] = tuple(rng.randint(1, MAXB) for _ in range(rng.randint(1, 6)))
+            a["m"] = _message(rng)
             if driver:
                 do("Queue", a)
             else:
